@@ -24,6 +24,8 @@ structure DictModel where
   locate : Str → Option Nat
   extract : Nat → Option (Option Str)
   image : Option (List UInt8) := none
+  /-- exact kinds with a model of their prefix search: the ID range, `(0,0)` = none, `none` = model fault -/
+  prefixRange : Option (Str → Option (Nat × Nat)) := none
   /-- exact kinds with a model of their loader: given the stream (image ++ trailer), the answers of
   the reloaded object (locate, extract, numElements, maxLength, its own re-saved image) and the rest
   of the stream -/
@@ -105,7 +107,16 @@ def runDict (c : Case) (m : DictModel) (emit : Nat → String → IO Unit) : IO 
       | some (some s) => emit k s!"E {strOrNull (some s)}"
       | none => emit k (if m.exact then "E MODEL-FAULT" else "E ?")
     | ["exts"] => emit k s!"XS {joinStrs (sortStrs S)}"
-    | ["pre", h] => emit k s!"P {joinIds (mapIds m (if m.hasPrefix then Spec.prefixIds S (unhex h) else []))}"
+    | ["pre", h] =>
+      match m.prefixRange with
+      | some f =>
+        match f (unhex h) with
+        | none => emit k "P MODEL-FAULT"
+        | some (lo, hi) =>
+          let ids := if lo = 0 then [] else (List.range (hi + 1 - lo)).map (· + lo)
+          -- the modelled search must also agree with the specification
+          if ids == Spec.prefixIds S (unhex h) then emit k s!"P {joinIds ids}" else emit k s!"P MODEL-DIFFERS-FROM-SPEC {joinIds ids}"
+      | none => emit k s!"P {joinIds (mapIds m (if m.hasPrefix then Spec.prefixIds S (unhex h) else []))}"
     | ["sub", h] => emit k s!"B {joinIds (mapIds m (if m.hasSubstr then Spec.substrIds S (unhex h) else []))}"
     | ["xpre", h] =>
       let ids := if m.hasPrefix then Spec.prefixIds S (unhex h) else []
